@@ -69,6 +69,37 @@ theorem tie_newOptionsShape : newOptionsShape = [
   "}",
   "return"] := by rfl
 
+/-! ### round 3: `newOptions` (the Options → (expiry, notFoundExpiry) function of the model) -/
+
+/-- the state `newOptions` starts from is the zero `Options` (so an option that is not given equals 0:
+`Model.newOptions` uses `getD 0`), and every given option is applied to it. -/
+theorem tie_newOptionsHead : newOptionsHead = [
+  "var o Options",
+  "for _, opt := range opts { opt(&o) }"] := by rfl
+
+/-- which field an option assigns. -/
+theorem tie_withOptionAssigns : withExpiryAssigns = ["o.Expiry = expiry"]
+    ∧ withNotFoundExpiryAssigns = ["o.NotFoundExpiry = expiry"] := by decide
+
+/-- the field updates a translated effect list performs on (Expiry, NotFoundExpiry). -/
+def applyOpt (st : Int × Int) : List (String × Int) → Int × Int
+  | [] => st
+  | fv :: r => applyOpt (if fv.1 = "o.Expiry" then (fv.2, st.2)
+                         else if fv.1 = "o.NotFoundExpiry" then (st.1, fv.2) else (-1, -1)) r
+
+/-- **the sanity checks of `newOptions`, translated from the source, are the model's `newOptionsMs`** for every
+pair of field values (whole milliseconds; the Go values are nanoseconds): comparison operators (`<= 0`),
+the constants, and which field gets which default. -/
+theorem tie_newOptionsTail (e n : Int) :
+    applyOpt (e * 1000000, n * 1000000)
+        (newOptionsTail (e * 1000000) defaultExpiry (n * 1000000) defaultNotFoundExpiry)
+      = (((newOptionsMs e n).1 : Int) * 1000000, ((newOptionsMs e n).2 : Int) * 1000000) := by
+  have he : (e * 1000000 ≤ 0) ↔ e ≤ 0 := by omega
+  have hn : (n * 1000000 ≤ 0) ↔ n ≤ 0 := by omega
+  unfold newOptionsTail newOptionsMs
+  by_cases h1 : e ≤ 0 <;> by_cases h2 : n ≤ 0 <;>
+    simp [he, hn, h1, h2, applyOpt, defaultExpiry, defaultNotFoundExpiry, defaultExpiryMs, defaultNotFoundExpiryMs] <;> omega
+
 theorem tie_doGetCacheShape : doGetCacheShape = [
   "call c.stat.IncrementTotal",
   "call c.rds.GetCtx",
